@@ -17,3 +17,4 @@ func verifCoin(float64) (bool, bool)           { return false, false }
 func verifYield(string, peer.ID)               {}
 
 func verifPickPeer(map[peer.ID]EventType) (peer.ID, bool) { return "", false }
+func verifSleepJitter(int) bool                           { return false }
